@@ -2,6 +2,7 @@ import Gowarc.Driver.FieldsH
 import Gowarc.Driver.BufH
 import Gowarc.Driver.DigestH
 import Gowarc.Driver.ParseH
+import Gowarc.Driver.RecordH
 namespace Gowarc.Driver
 
 def handleLine (line : String) : String :=
@@ -18,6 +19,10 @@ def handleLine (line : String) : String :=
       | "dechdr" => handleDecHdr args
       | "hdrparse" => handleHdrParse args
       | "apiparse" => handleApiParse args
+      | "unmarshal" => handleUnmarshal args
+      | "build" => handleBuild args
+      | "roundtrip" => handleRoundtrip args
+      | "valhdr" => handleValHdr args
       | _ => "unknown-kind"
     id ++ " " ++ out
   | _ => "? bad-line"
